@@ -44,7 +44,7 @@ def pre_build():
     c39_src.emit(REPO, os.path.join(COQ, "Gen", "C39_src.v"))
 
 
-KINDS = {0: "KSync", 1: "KSync", 2: "KSyncStop", 3: "KAsync", 4: "KSync"}
+KINDS = {0: "KSync", 1: "KSync", 2: "KSyncStop", 3: "KAsync", 4: "KSync", 5: "KSyncClock"}
 ERR_CLASSES = (ZeroDivisionError, ValueError, OverflowError, AttributeError)
 
 
@@ -154,6 +154,8 @@ def run_fake(case):
             return _Aw(tr)
         if k == 2:
             pc.stop()
+        if k == 5:
+            loop.now = state["arg"]          # the callback took time
         tr.emit(G.Tag("cb-"))
         if k == 1:
             raise RuntimeError("callback failed")
@@ -199,6 +201,7 @@ def run_fake(case):
                     if armed:
                         co = armed.pop(0)
                         state["kind"] = ev[1]
+                        state["arg"] = unbits(ev[2]) if len(ev) > 2 else None
                         n0 = len(tr.cur)
                         try:
                             co.send(None)
@@ -289,8 +292,8 @@ def run_real(case):
             # the loop has created the task; hold its first step until the Run event
             g = asyncio.get_event_loop().create_future()
             gates.append(g)
-            kind = await g
-            env["kind"] = kind
+            kind, arg = await g
+            env["kind"], env["arg"] = kind, arg
             n0 = len(tr.cur)
             try:
                 await callback()
@@ -320,6 +323,8 @@ def run_real(case):
                 return Aw()
             if k == 2:
                 pc.stop()
+            if k == 5:
+                env["now"] = env["arg"]
             tr.emit(G.Tag("cb-"))
             if k == 1:
                 raise RuntimeError("callback failed")
@@ -352,7 +357,7 @@ def run_real(case):
                         await settle(3)
                 elif op == "run":
                     if gates:
-                        gates.pop(0).set_result(ev[1])
+                        gates.pop(0).set_result((ev[1], unbits(ev[2]) if len(ev) > 2 else None))
                         await settle(6)
                 elif op == "done":
                     if waiters:
@@ -402,6 +407,8 @@ def _ev(ev):
     if op == "fire":
         return "EFire"
     if op == "run":
+        if ev[1] == 5:
+            return "ERun (KSyncClock %s)" % G.gz(ev[2])
         return "ERun %s" % KINDS[ev[1]]
     if op == "done":
         return "EDone"
@@ -452,6 +459,10 @@ def _arith(ct, jit, st, pv, now, rnd, n, d):
         return "before-current-time"
     if pv <= now and not d <= now + p + u:
         return "more-than-a-period-ahead"
+    if abs(jit) <= 1:
+        k = math.floor((d - pv) / p + Fraction(1, 2))
+        if k < (1 if m <= 2 ** 31 else 0) or abs(d - (pv + k * p)) > 4 * u:
+            return "not-a-whole-number-of-periods"
     if jit == 0:
         k = math.floor((d - st) / p + Fraction(1, 2))
         if abs(d - (st + k * p)) > (n + 1) * u:
@@ -497,6 +508,8 @@ def why_bad(case, o):
                 depth += 1
                 if op == "run" and ev[1] == 2:
                     running = False
+                if op == "run" and ev[1] == 5:
+                    now = ev[2]
             elif x == "cb-" and isinstance(x, G.Tag):
                 if depth == 0 or busy == 0:
                     return "malformed-observable"
@@ -627,11 +640,22 @@ class _Sim:
             self.armed += 1
         self.evs.append(["fire"])
 
-    def run(self, k):
-        self.evs.append(["run", k])
+    def run(self, k, t=None):
+        if k == 5:
+            if t is None:     # the callback takes part of a period, or overruns several
+                d, p = self.next, self.p
+                base = max(self.now, d) if math.isfinite(d) else self.now
+                t = base + p * self.rng.choice([self.rng.random() * 0.9, 1.0, self.rng.randrange(1, 6) + self.rng.random(), 0.0])
+                if not math.isfinite(t):
+                    t = self.now
+            self.evs.append(["run", 5, bits(t)])
+        else:
+            self.evs.append(["run", k])
         if self.armed:
             self.armed -= 1
             if self.running:
+                if k == 5:
+                    self.now = t
                 if k == 3:
                     self.inflight += 1
                 elif k == 2:
@@ -706,7 +730,7 @@ def _structured(rng, mode="fake", timely=False):
             if rng.random() < 0.5:
                 s.run(rng.choice([0, 3]))
                 continue
-        k = 3 if rng.random() < coro_bias else rng.choice([0, 0, 0, 1, 2, 4])
+        k = 3 if rng.random() < coro_bias else rng.choice([0, 0, 5, 5, 5, 1, 2, 4])
         if rng.random() < 0.3:
             s.aim_clock("late" if timely else None)
         s.run(k)
@@ -730,7 +754,7 @@ def _structured(rng, mode="fake", timely=False):
     return _mk(ct, jit, t0, r0, s.evs, mode, ct_int=rng.random() < 0.3)
 
 
-ALPHA_KEYS = ["start", "stop", "fire", "runS", "runA", "runX", "done", "fwd", "back"]
+ALPHA_KEYS = ["start", "stop", "fire", "runS", "runA", "runX", "runT", "done", "fwd", "back"]
 
 
 def _alpha_case(seq, p=0.25, t0=1000.0, lead_start=True, mode="fake"):
@@ -751,6 +775,9 @@ def _alpha_case(seq, p=0.25, t0=1000.0, lead_start=True, mode="fake"):
             evs.append(["run", 3])
         elif a == "runX":
             evs.append(["run", 2])
+        elif a == "runT":        # a plain callback that overruns two periods
+            t = t + 2.25 * p
+            evs.append(["run", 5, bits(t)])
         elif a == "done":
             evs.append(["done", True])
         elif a == "fwd":
@@ -789,7 +816,8 @@ def _soup(rng):
         elif x in (4, 5):
             evs.append(["fire"])
         elif x in (6, 7):
-            evs.append(["run", rng.randrange(5)])
+            k = rng.randrange(6)
+            evs.append(["run", 5, bits(num())] if k == 5 else ["run", k])
         elif x == 8:
             evs.append(["done", rng.random() < 0.7])
         else:
@@ -809,7 +837,7 @@ def _arith_chain(rng, n):
             s.rand()
         s.aim_clock()
         s.fire()
-        s.run(0)
+        s.run(rng.choice([0, 5]))
     return _mk(p * 1000.0, jit, t0, 0.5, s.evs, ct_int=rng.random() < 0.3)
 
 
@@ -837,6 +865,11 @@ def corpus_cases():
     # coroutine callback overrunning several periods; stop while it runs; completion after stop
     out.append(_mk(1000.0, 0.0, e9, 0.5, [["start", None], ["clock", bits(e9 + 1)], ["fire"], ["run", 3], ["clock", bits(e9 + 4.5)], ["fire"],
                                           ["done", True], ["clock", bits(e9 + 5)], ["fire"], ["run", 3], ["stop"], ["done", False], ["fire"], ["run", 0]]))
+    # plain callback overrunning 2.5 periods, then one that is quick (test_overrun with the time spent INSIDE the callback)
+    out.append(_mk(10000.0, 0.0, 1000.0, 0.5, [["start", None], ["clock", bits(1010.0)], ["fire"], ["run", 5, bits(1035.0)], ["clock", bits(1040.0)], ["fire"],
+                                               ["run", 5, bits(1042.0)], ["clock", bits(1050.0)], ["fire"], ["run", 0]]))
+    out.append(_mk(10000.0, 0.0, 1000.0, 0.5, [["start", None], ["clock", bits(1010.0)], ["fire"], ["run", 5, bits(1035.0)], ["clock", bits(1040.0)], ["fire"],
+                                               ["run", 5, bits(1042.0)]], mode="real"))
     # timer fired, stop() before the coroutine's first step
     out.append(_mk(1000.0, 0.0, e9, 0.5, [["start", None], ["clock", bits(e9 + 1)], ["fire"], ["stop"], ["run", 0], ["fire"]]))
     # restart while a coroutine callback is in flight: two timer chains (outside the property's scope; see NOTES.md)
@@ -951,7 +984,7 @@ ASSUMPTIONS = [
     "no Flocq-style error-bound theorem for the binary64 path: its tolerance clauses are evaluated on the implementation's floats, the exact statements are proved over Q",
     "overlap freedom is stated for runs in which start() is only called while idle (a restart while a coroutine callback is in flight starts a second timer chain)",
 ]
-RULE = ("all event orders over 9 event kinds up to length 3 (quick) / 4 (thorough, + sampled lengths 5-9) after start() + structured single-start runs with clock readings aimed at/around the pending deadline "
+RULE = ("all event orders over 10 event kinds up to length 3 (quick) / 4 (thorough, + sampled lengths 5-9) after start() + structured single-start runs with clock readings aimed at/around the pending deadline "
         "(exact, late, missed periods, grid boundaries +-1ulp, backwards) + long arithmetic chains + malformed event/number soup + runs on a real IOLoop; "
         "distinct by full input; non-trivial = at least one deadline scheduled")
 LEVEL_TEXT = ("Machine-checked (Coq) proofs over exact rationals that every _update_next result is later than the previous deadline, after the current time, at most one period "
